@@ -169,12 +169,12 @@ theorem setE_balance (t : Node) (k : Path) (v : Bytes) (h : Hash) :
       | nil =>
         simp only [occProper_wrap]
         by_cases hc : cm = [] <;> by_cases hpt : pt = [] <;>
-          simp [hc, hpt, occ, occProper, sumCh_single, occ_wrap, wrap_nil, wrap_of_ne] <;> omega
+          simp [hc, hpt, occ, occProper, sumCh_single, wrap_nil, wrap_of_ne] <;> omega
       | cons kh kt =>
         have hd := hne ph kh pt kt rfl rfl
         simp only [occProper_wrap]
         by_cases hc : cm = [] <;> by_cases hpt : pt = [] <;>
-          simp [hc, hpt, occ, occProper, sumCh_pair Hs _ _ _ _ hd, occ_wrap, wrap_nil, wrap_of_ne] <;> omega
+          simp [hc, hpt, occ, occProper, sumCh_pair Hs _ _ _ _ hd, wrap_nil, wrap_of_ne] <;> omega
   | branch ch bv ih =>
     cases k with
     | nil => simp [setE, occ, occProper]; omega
